@@ -26,8 +26,17 @@ def Q.len (q : Q) : Nat := q.length
 /-- `chunks_count` -/
 def Q.chunksCount (q : Q) : Nat := q.chunks.length
 
+/-- `usize::MAX` (64-bit target) -/
+def usizeMax : Nat := 18446744073709551615
+
 /-- checked `a - b` on `usize` -/
 def sub? (a b : Nat) : Option Nat := if b ≤ a then some (a - b) else none
+
+/-- checked `a + b` on `usize` (`+`, `+=` in a debug build) -/
+def add? (a b : Nat) : Option Nat := if a + b ≤ usizeMax then some (a + b) else none
+
+/-- `a.saturating_add(b)` on `usize` -/
+def satAdd (a b : Nat) : Nat := min (a + b) usizeMax
 
 /-- `as_slice`: `&chunk[self.offset..]` of the front chunk (panics when `offset > len`), `&[]` without chunks -/
 def Q.asSlice? (q : Q) : Option (List UInt8) :=
@@ -35,15 +44,19 @@ def Q.asSlice? (q : Q) : Option (List UInt8) :=
   | [] => some []
   | c :: _ => if q.offset ≤ c.length then some (c.drop q.offset) else none
 
-/-- `consume(amt)` -/
+/-- `consume(amt)`:
+```
+if front.map(len).unwrap_or(0) > self.offset.saturating_add(amt) { self.offset += amt; self.length -= amt; }
+else { if let Some(chunk) = pop_front() { self.length -= chunk.len() - self.offset } self.offset = 0; }
+``` -/
 def Q.consume? (q : Q) (amt : Nat) : Option Q :=
   match q.chunks with
   | [] => some { q with offset := 0 }
   | c :: cs =>
-    if c.length > q.offset + amt then
-      match sub? q.length amt with
-      | some l => some { q with offset := q.offset + amt, length := l }
-      | none => none
+    if c.length > satAdd q.offset amt then
+      match add? q.offset amt, sub? q.length amt with
+      | some o, some l => some { q with offset := o, length := l }
+      | _, _ => none
     else
       match sub? c.length q.offset with
       | none => none
@@ -58,9 +71,11 @@ def appendLast : List (List UInt8) → List UInt8 → List (List UInt8)
   | [c], b => [c ++ b]
   | c :: d :: cs, b => c :: appendLast (d :: cs) b
 
-/-- `Write::write` (always accepts the whole buffer) -/
-def Q.write (q : Q) (b : List UInt8) : Q :=
-  { q with chunks := appendLast q.chunks b, length := q.length + b.length }
+/-- `Write::write` (always accepts the whole buffer); `self.length += buf.len()` is a checked addition -/
+def Q.write? (q : Q) (b : List UInt8) : Option Q :=
+  match add? q.length b.length with
+  | some l => some { q with chunks := appendLast q.chunks b, length := l }
+  | none => none
 
 /-- `Write::flush`: start a new chunk unless the front slice is empty -/
 def Q.flush? (q : Q) : Option Q :=
@@ -122,7 +137,9 @@ deriving Repr, DecidableEq
 
 /-- one public call; `none` = panic -/
 def Q.step? (q : Q) : Op → Option (Q × Ev)
-  | .write b => some (q.write b, .write b)
+  | .write b => match q.write? b with
+    | some q' => some (q', .write b)
+    | none => none
   | .flush => match q.flush? with
     | some q' => some (q', .flush)
     | none => none
@@ -152,9 +169,10 @@ def Q.run? (q : Q) : List Op → Option (Q × List Ev)
       | none => none
       | some (q'', evs) => some (q'', ev :: evs)
 
-/-! ## line protocol: `q <op> <op> …` → one observation per op
+/-! ## line protocol: `qa <op> …` / `qr <op> …` → one observation per op
 ops: `w:<hex>` `f` `r:<n>` `c:<n>` `k:<n>` `ke` `d`;
-observation: `<bytes returned by read | ->/<len>/<chunks_count>/<E|N>/<as_slice hex>` -/
+`qa` (behaviour on the byte level): `<bytes returned by read | ->/<len>`;
+`qr` (representation: chunking): `<chunks_count>/<E|N>/<as_slice hex>` -/
 
 def parseOp (t : String) : Option Op :=
   match t.splitOn ":" with
@@ -167,27 +185,32 @@ def parseOp (t : String) : Option Op :=
   | ["k", n] => n.toNat?.map .consumeWith
   | _ => none
 
-def observe (q : Q) (op : Op) (ev : Ev) : String :=
-  let out := match op, ev with
-    | .read _, .take o => hex o
-    | _, _ => "-"
-  let sl := match q.asSlice? with
-    | some s => hex s
-    | none => "panic"
-  s!"{out}/{q.len}/{q.chunksCount}/{if q.isEmpty then "E" else "N"}/{sl}"
+def observe (repr : Bool) (q : Q) (op : Op) (ev : Ev) : String :=
+  if repr then
+    let sl := match q.asSlice? with
+      | some s => hex s
+      | none => "panic"
+    s!"{q.chunksCount}/{if q.isEmpty then "E" else "N"}/{sl}"
+  else
+    let out := match op, ev with
+      | .read _, .take o => hex o
+      | _, _ => "-"
+    s!"{out}/{q.len}"
 
-def runObserve (q : Q) : List Op → List String → List String
+def runObserve (repr : Bool) (q : Q) : List Op → List String → List String
   | [], acc => acc.reverse
   | op :: ops, acc =>
     match q.step? op with
     | none => ("panic" :: acc).reverse
-    | some (q', ev) => runObserve q' ops (observe q' op ev :: acc)
+    | some (q', ev) => runObserve repr q' ops (observe repr q' op ev :: acc)
 
 def handle : List String → String
-  | "q" :: toks =>
-    match toks.mapM parseOp with
-    | some ops => " ".intercalate (runObserve Q.new ops [])
-    | none => "bad-args"
+  | kind :: toks =>
+    if kind == "qa" || kind == "qr" then
+      match toks.mapM parseOp with
+      | some ops => " ".intercalate (runObserve (kind == "qr") Q.new ops [])
+      | none => "bad-args"
+    else "bad-op"
   | _ => "bad-op"
 
 end SurfModel.IOQueue
